@@ -108,12 +108,28 @@ def _snapshot(container):
     return copy.deepcopy(container)
 
 
-def do_write(fx, np, route, obj, fmt, modes, n):
+def do_write(fx, np, route, obj, fmt, modes, n, raw=False):
     """perform one write of obj by the given route; returns the written Fxp (view for setitem routes) and
     the selector that extracts the written elements"""
     Fxp = fx.Fxp
     s, w, f = fmt
     kw = dict(rounding=modes[0], overflow=modes[1])
+    if raw:        # the input is a CODE (raw=True): constructor, set_val and indexed assignment through set_val(index=)
+        if route == 'ctor':
+            x = Fxp(obj, s, w, f, raw=True, **kw)
+            return x, x
+        if route in ('set_val', 'call', 'call-reset', 'recfg'):
+            x = Fxp(None, s, w, f, **kw)
+            if route == 'call-reset':
+                x.set_val((1 << (w + 3)) + 1, raw=True)
+                x.reset()
+            x.set_val(obj, raw=True)
+            return x, x
+        if route == 'setitem':
+            x = Fxp(np.zeros(3), s, w, f, **kw)
+            x.set_val(obj, raw=True, index=1)
+            return x, x[1]
+        raise ValueError('raw ' + route)
     if route == 'ctor':
         x = Fxp(obj, s, w, f, **kw)
         return x, x
@@ -154,19 +170,22 @@ def do_write(fx, np, route, obj, fmt, modes, n):
     raise ValueError(route)
 
 
-def observe(fx, np, fmt, modes, vals, carrier, route, props, agg, extra=None):
+def observe(fx, np, fmt, modes, vals, carrier, route, props, agg, extra=None, raw=False):
     """vals: list of Fractions.  agg: one array write.  Returns (row or None, error row or None)."""
     s, w, f = fmt
     base = {'k': 'store', 'p': list(props), 's': bool(s), 'w': w, 'f': f, 'r': modes[0], 'o': modes[1],
-            'route': route, 'carrier': carrier, 'agg': bool(agg), 'sorted': False}
+            'route': route + ('/raw' if raw else ''), 'carrier': carrier, 'agg': bool(agg), 'sorted': False}
     if extra:
         base.update(extra)
+    if raw:        # vals are integer codes; as VALUES they are code * 2^-n_frac
+        codes_in = [int(v) for v in vals]
+        vals = [F(c) / F(2) ** f for c in codes_in]
     if agg:
-        obj = make_array(np, carrier, vals)
+        obj = make_array(np, carrier, vals) if not raw else ([int(c) for c in codes_in] if carrier == 'list' else np.array([int(c) for c in codes_in], dtype=object))
         if obj is None:
             return None
         try:
-            x, sel = do_write(fx, np, route, obj, fmt, modes, len(vals))
+            x, sel = do_write(fx, np, route, obj, fmt, modes, len(vals), raw=raw)
             codes = common.codes_of(sel)
             rb = np.asarray(sel.get_val(), dtype=float).ravel().tolist() if w <= 52 else []
             fl = common.flags_of(x)
@@ -176,12 +195,12 @@ def observe(fx, np, fmt, modes, vals, carrier, route, props, agg, extra=None):
                    fo=[fl['o']], fu=[fl['u']], fi=[fl['i']])
         return row
     cs, rbs, fo, fu, fi, vs = [], [], [], [], [], []
-    for v in vals:
-        obj = make_scalar(np, carrier, v)
+    for vi, v in enumerate(vals):
+        obj = make_scalar(np, carrier, v) if not raw else int(codes_in[vi])
         if obj is None:
             continue
         try:
-            x, sel = do_write(fx, np, route, obj, fmt, modes, 1)
+            x, sel = do_write(fx, np, route, obj, fmt, modes, 1, raw=raw)
             c = common.codes_of(sel)
             if len(c) != 1:
                 raise ValueError('scalar write produced %d elements' % len(c))
